@@ -66,6 +66,16 @@ CLAIMS = {
          "Decides: the aliasing clause — copies (list(x), x+y, x[a:b], x.copy(), dict(**kw), set(x), tuple(list), type(name,bases,ns)) never share backing storage with their operands, f(**d) passes a new dict, in-place operators of mutable containers evaluate to the receiver, the list iterator refers to the list itself. "
          "Does not decide: equality of every observation with a reference model over histories (values), dict/set element semantics, mutation of a container while it is its own operand (e.g. a[2:3] = a).",
          "DESIGN.md §4 C17"),
+ "C07": ("typed-AST guard analysis (structured dominance) of partial machine operators; constant evaluation by the type checker; operator/comparison/reflection tables; type-switch reachability",
+         "Decides necessary structural conditions of exact integer arithmetic: representation constants (IntMax, IntMin, sqrtIntMax = isqrt(IntMax)); every -x on a word excludes IntMin, every / and % tests the divisor (and IntMin / -1), every shift by a converted signed count tests < 0, every big.Int division tests the sign; "
+         "overflow guards compare in the direction of the limit they mention; each of the six comparisons of Int/BigInt/Bool uses its own operator; reflected non-commutative methods exchange the operands; the floor-division fix-up depends on the divisor's sign; no type-switch arm is shadowed. "
+         "Does not decide: the numerical results themselves (2**128 operand pairs), text conversion digit by digit, pow/three-argument pow, the correctness of the bounds inside a guard beyond direction and the frozen constants.",
+         "DESIGN.md §4 C07"),
+ "C15": ("typed-AST guard analysis of float/complex division; comparison/reflection tables; protocol and tower-coverage checks; constant-exactness and threshold evaluation by the type checker",
+         "Decides necessary structural conditions: float and complex /, //, % test the divisor and raise ZeroDivisionError; Float/Complex comparisons use their own operator; reflected methods exchange operands; numeric binary methods answer NotImplemented for operands they cannot convert; "
+         "the conversion functions cover the numeric tower; float text form tests nan/inf before Go formatting and does not detour through a machine integer; an integer limit used as a float bound is exactly representable or excluded; the remainder fix-up depends on the divisor's sign; BigInt.Float's threshold cannot reach +Inf. "
+         "Does not decide: IEEE results, exactness of int/float comparison (known to be lossy for |n| > 2**53: convertToFloat rounds), shortest round-trip text, correctness of round() digits, sum/min/max folding.",
+         "DESIGN.md §4 C15"),
 }
 _todo = "rules for this property are designed (DESIGN.md §4) but not yet implemented in this revision of the checker"
-NA = {p: _todo for p in ["C07","C14","C15","C16"]}
+NA = {p: _todo for p in ["C14","C16"]}
